@@ -270,17 +270,11 @@ func relation(p string, a, b tree) string {
 		if _, ok := a[q]; ok {
 			return "under-current-file"
 		}
-		da, db := isDirIn(a, q), isDirIn(b, q)
-		switch {
-		case da && !db:
+		if isDirIn(a, q) && !isDirIn(b, q) {
 			return "in-removed-dir"
-		case db && !da:
-			return "in-added-dir"
-		case da && db:
-			return "in-kept-dir"
 		}
 	}
-	return "unrelated"
+	return "elsewhere"
 }
 
 func swapName(f file) string {
@@ -912,7 +906,9 @@ func (w *world) applyMod(m Mod) {
 		}
 		class = "staged-" + class
 	}
-	w.prior[p] = class
+	if w.prior[p] != "staged-add" { // a later edit of a staged new file keeps the class of its origin
+		w.prior[p] = class
+	}
 	w.nprior++
 	w.logf("mod %s %s: applied as %s", m.Kind, p, class)
 }
@@ -1348,7 +1344,7 @@ func relationName(p string, cur, tgt tree) string {
 		return "target-adds-path"
 	case "in-removed-dir":
 		return "target-removes-dir"
-	case "in-added-dir", "in-kept-dir", "unrelated":
+	case "elsewhere":
 		return "target-lacks-path"
 	default:
 		// the path, something above it or something below it is a file on one
